@@ -26,6 +26,7 @@ def scene():
     n["big"] = op(f"create @{ka} 0={ul(0)} 1=01 2=01 3={hx('big-data')} 11={'c3' * 10000}")
     n["aes"] = op(f"create @{ka} 0={ul(4)} 100={ul(0x1f)} 1=01 2=01 3={hx('aes-key')} 11={'0f' * 32} 104=01 105=01 162=01 103=00")
     n["ec"] = op(f"genpair @{ka} 1040 180={gen.P256} 1=01 3={hx('ec-pub')} 10a=01 / 1=01 3={hx('ec-priv')} 108=01 2=01")
+    n["ed"] = op(f"genpair @{ka} 1055 180={gen.ED25519} 1=01 3={hx('ed-pub')} 10a=01 / 1=01 3={hx('ed-priv')} 108=01 2=01")
     kb = op(f"open t:{hx('tokB')} 6"); op(f"login @{kb} 0 {hx(SO_B)}"); n["kb"] = kb           # SO session on token B
     kp = op(f"open t:{hx('tokA')} 6"); n["kp"] = kp                                                 # second (user) session on A
     return L, n
@@ -54,6 +55,13 @@ def scenarios(n):
         ("logout", [], f"logout @{ka}"),
         ("reinit-token", [f"closeall t:{hx('tokB')}"], f"inittoken t:{hx('tokB')} {hx(SO_B)} {hx('tokB')}"),
         ("inittoken-free", [], f"inittoken free {hx('so-of-tokC')} {hx('tokC')}"),
+        # calls that only READ: whatever file operations they make, a process death at any of them must leave everything as it was
+        ("read-aes-key", [], f"getattr @{ka} @{n['aes']} 3:64 11:64 100:8"),
+        ("read-ec-private", [], f"getattr @{ka} @{n['ec']}.1 3:64 100:8 180:64"),
+        ("read-ed-private", [], f"getattr @{ka} @{n['ed']}.1 3:64 100:8 180:64"),
+        ("read-ed-public", [], f"getattr @{ka} @{n['ed']} 3:64 100:8 181:64"),
+        ("read-big-data", [], f"getattr @{ka} @{n['big']} 3:64 11:20000"),
+        ("search-all", [], f"findinit @{ka}"),
     ]
     return S
 
